@@ -90,3 +90,60 @@ def run_facade(rep, tier):
     finally:
         ws.close()
     return [], fails
+
+
+PERMUTED = [
+    ("func(string, int) string", "func(int, string) string", "func(s string, n int) string { return s }", "func(n int, s string) string { return f(s, n) }",
+     'g(3, "abc")', '"abc"'),
+    ("struct{ A int; B string }", "struct{ A string; B int }", "struct{ A int; B string }{1, \"x\"}", "struct{ A string; B int }{f.B, f.A}",
+     "g.A", '"x"'),
+    ("map[string]int", "map[int]string", "map[string]int{\"k\": 7}", "map[int]string{f[\"k\"]: \"k\"}", "g[7]", '"k"'),
+    ("func(a, b int) (int, string)", "func(a int, b string) (int, int)", "func(a, b int) (int, string) { return a + b, \"s\" }",
+     "func(a int, b string) (int, int) { x, _ := f(a, len(b)); return x, a }", "func() int { x, _ := g(2, \"yy\"); return x }()", "4"),
+]
+
+
+def run_permuted(rep, tier):
+    """unnamed types that differ only by a permutation of their components, one built from the other: a well-formed, acyclic program"""
+    ws = Workspace()
+    fails = []
+    try:
+        cases = []
+        for k, (ta, tb, va, vb, use, want) in enumerate(PERMUTED):
+            for order in (0, 1, 2):
+                pkg = "pm%d_%d" % (k, order)
+                d = ws.root + "/" + pkg
+                os.makedirs(d)
+                open(d + "/t.go", "w").write(
+                    "package %s\n\nimport \"fmt\"\n\ntype App struct{ Out string }\n\nfunc Raw() %s { return %s }\n\nfunc Flip(f %s) %s { return %s }\n\n"
+                    "func NewApp(g %s) App { return App{Out: fmt.Sprint(%s)} }\n" % (pkg, ta, va, ta, tb, vb, tb, use))
+                items = [["Raw", "Flip", "NewApp"], ["NewApp", "Flip", "Raw"], ["Flip", "NewApp", "Raw"]][order]
+                body = "wire.Build(%s)" % ", ".join(items) if order != 2 else "wire.Build(wire.NewSet(NewApp, wire.NewSet(Flip, Raw)))"
+                open(d + "/wire.go", "w").write("//go:build wireinject\n// +build wireinject\n\npackage %s\n\nimport \"github.com/google/wire\"\n\n"
+                                                "func Init() App {\n\tpanic(%s)\n}\n" % (pkg, body))
+                cases.append((pkg, ta, tb, want))
+        results = ws.wire_many([["gen", "./" + c[0]] for c in cases], timeout=120)
+        ok = []
+        for c, (rc, out, err) in zip(cases, results):
+            rep.evaluations += 1
+            rep.nontrivial.add("permuted/" + c[0])
+            if rc != 0 or panicked(err):
+                fails.append({"stream": "c10-permuted", "package": c[0],
+                              "why": ["a provider of %s built from a provider of %s (different types, no cycle) is rejected: %s" % (c[2], c[1], err.strip()[-300:])]})
+            else:
+                ok.append(c)
+        if ok:
+            os.makedirs(ws.root + "/cmd/perm")
+            L = ["package main", "", "import (", '\t"fmt"'] + ['\tp%d "%s/%s"' % (i, MOD, c[0]) for i, c in enumerate(ok)] + [")", "", "func main() {"]
+            L += ['\tfmt.Printf("%s %%q\\n", p%d.Init().Out)' % (c[0], i) for i, c in enumerate(ok)] + ["}"]
+            open(ws.root + "/cmd/perm/main.go", "w").write("\n".join(L) + "\n")
+            rc, out, err = run(["go", "run", "./cmd/perm"], cwd=ws.root, env=dict(GOENV), timeout=300)
+            if rc != 0:
+                fails.append({"stream": "c10-permuted", "why": ["accepted programs do not build / run: " + (out + err)[-400:]]})
+            got = dict(l.split(" ", 1) for l in out.strip().split("\n") if " " in l)
+            for c in ok:
+                if rc == 0 and got.get(c[0]) != '"%s"' % c[3].strip('"'):
+                    fails.append({"stream": "c10-permuted", "package": c[0], "why": ["injector yields %s, expected %s" % (got.get(c[0]), c[3])]})
+    finally:
+        ws.close()
+    return [], fails
